@@ -507,7 +507,13 @@ impl Template {
                 (Literal, c) => (Literal, Some(c)),
                 (DoubleClose, '}') => (Literal, None),
                 (MaybeOpen, '{') => (Literal, Some('{')),
-                (MaybeOpen | Key, c) if c.is_ascii_whitespace() => {
+                (MaybeOpen, c) if c.is_ascii_whitespace() => {
+                    // An opening brace followed by whitespace stands for itself. Any literal
+                    // text before the brace is still pending in `buf`: keep the brace after it.
+                    buf.push('{');
+                    (Literal, Some(c))
+                }
+                (Key, c) if c.is_ascii_whitespace() => {
                     // If we find whitespace where the variable key is supposed to go,
                     // backtrack and act as if this was a literal.
                     buf.push(c);
